@@ -32,7 +32,8 @@ impl Default for Cfg {
 }
 
 /// clause names that exist only as gated clauses (each is also the trigger name of its finding)
-pub const GATED_CLAUSES: &[&str] = &["defaulted_attr_child_parent", "defaulted_attr_order_zero", "nontext_normal_queries"];
+pub const GATED_CLAUSES: &[&str] =
+    &["defaulted_attr_child_parent", "defaulted_attr_order_zero", "nontext_normal_queries", "expanded_raw_piece_navigation", "no_document_element"];
 
 #[derive(Clone, Debug, Default)]
 pub struct StepReport {
@@ -1353,6 +1354,20 @@ impl World {
                             Ok(_) => fails.push(Fail::new("C16", "split", "data() failed after split_text".into())),
                             Err(p) => fails.push(Fail::new("C16", "panic", format!("data() panicked after split_text: {}", p))),
                         }
+                        // clause 7: "two adjacent siblings" — through the halves' own sibling links
+                        if self.model.nodes[m].parent.is_some() {
+                            let nav = guarded(|| (a.next_sibling().map(|x| x.id()), b.previous_sibling().map(|x| x.id()), a.id(), b.id()));
+                            if let Ok((an, bp, ai, bi)) = nav {
+                                if an != Some(bi) || bp != Some(ai) {
+                                    let expanded = self.real.docs[doc].expanded;
+                                    fails.push(Fail::new(
+                                        "C16",
+                                        if expanded { "expanded_raw_piece_navigation" } else { "split" },
+                                        format!("after split_text the first half #{} reports next_sibling {:?} and the second half #{} previous_sibling {:?}: not adjacent siblings", ai, an, bi, bp),
+                                    ));
+                                }
+                            }
+                        }
                     }
                 }
             }
@@ -1728,8 +1743,16 @@ impl World {
         let live = self.real.docs[doc].dom.clone();
         if !self.model.has_document_element(doc) {
             // DOM Level 1 allows removing the document element; what is left has no well-formed
-            // serialisation, and C15 (about the strings handed to the API) is not judged on it
-            rep.probes.push("persist_skipped_no_document_element");
+            // serialisation.  A listed finding (clause no_document_element); judged only when it is not listed
+            if self.cfg.gates.iter().any(|g| g == "no_document_element") {
+                rep.probes.push("persist_skipped_no_document_element");
+            } else if let Ok(Err(e)) = guarded(|| parse_doc(ser, expanded)) {
+                fails.push(Fail::new(
+                    "C15",
+                    "no_document_element",
+                    format!("calls that reported success left a document without a document element; the parser rejects its serialisation {:?}: {}", ser, e),
+                ));
+            }
             return;
         }
         let rec = match guarded(|| parse_doc(ser, expanded)) {
